@@ -18,6 +18,22 @@ fn emit_case(n: usize, v: &[usize], out: &mut Out) {
     out.line(&format!("case iter-{n}"));
     out.line(format!("it2 {s}").trim_end());
     out.line(format!("it3 {s}").trim_end());
+    // the iterator protocol on a partly consumed iterator: what is left after j steps
+    let k = v.iter().filter(|x| **x >= 2).count() as u32;
+    let j2 = (n * 7 + 3) % (2usize.pow(k) + 2);
+    let j3 = (n * 5 + 1) % (3usize.pow(k) + 2);
+    out.line(format!("itc2 {j2} {s}").trim_end());
+    out.line(format!("itc3 {j3} {s}").trim_end());
+}
+
+/// more undecided positions than a machine word has bits: only a prefix can be looked at
+fn emit_big(r: &mut Rng, n: usize, out: &mut Out) {
+    let len = r.range(60, 110);
+    let v: Vec<usize> = (0..len).map(|i| if r.chance(1, 8) { r.usize(2) } else { 2 + i }).collect();
+    let s = v.iter().map(|x| x.to_string()).collect::<Vec<_>>().join(" ");
+    out.line(&format!("case iterbig-{n}"));
+    out.line(&format!("itp2 {} {s}", r.range(2, 300)));
+    out.line(&format!("itp3 {} {s}", r.range(2, 300)));
 }
 
 /// `size` < 100: random vectors of length 0..=size (0 → 10), at most 6 undecided entries;
@@ -80,6 +96,9 @@ pub fn gen(r: &mut Rng, cases: usize, size: usize, out: &mut Out) {
             v[len - 1] = 2 + r.usize(9);
         }
         emit_case(case, &v, out);
+        if case % 10 == 0 {
+            emit_big(r, case, out);
+        }
     }
 }
 
@@ -119,7 +138,72 @@ fn spec_line(outv: &[Vec<Term>], expected: u128, ok: impl Fn(&[Term]) -> bool, f
     )
 }
 
+/// `itp2|itp3 <N> <handles>`: the first N yielded vectors (any number of undecided positions)
+/// `itc2|itc3 <j> <handles>`: size_hint and count() after j calls of next()
+fn exec_proto(ws: &[&str], l: &str, out: &mut Out) -> bool {
+    let three = ws[0].ends_with('3');
+    let prefix = ws[0].starts_with("itp");
+    out.line(l);
+    out.flush();
+    let num: Option<usize> = ws.get(1).and_then(|x| x.parse().ok());
+    let parsed: Option<Vec<Term>> = ws.iter().skip(2).map(|s| s.parse::<usize>().ok().map(Term)).collect();
+    let (Some(num), Some(v)) = (num, parsed) else {
+        out.line("~ bad-request");
+        return true;
+    };
+    let res = catch_unwind(AssertUnwindSafe(|| -> String {
+        if prefix {
+            let outv: Vec<Vec<Term>> = if three {
+                ThreeValuedInterpretationsIterator::new(&v).take(num).collect()
+            } else {
+                TwoValuedInterpretationsIterator::new(&v).take(num).collect()
+            };
+            let mut sorted: Vec<&Vec<Term>> = outv.iter().collect();
+            sorted.sort();
+            let distinct = sorted.windows(2).all(|w| w[0] != w[1]);
+            let members = outv.iter().all(|w| if three { is_refinement(w, &v) } else { is_completion(w, &v) });
+            format!(
+                "prefix count={} distinct={} members={} first-is-input={}",
+                outv.len(),
+                distinct as u8,
+                members as u8,
+                if three { (outv.first() == Some(&v)) as u8 } else { 1 }
+            )
+        } else {
+            let (hint, count) = if three {
+                let mut it = ThreeValuedInterpretationsIterator::new(&v);
+                for _ in 0..num {
+                    if it.next().is_none() {
+                        break;
+                    }
+                }
+                (it.size_hint(), it.count())
+            } else {
+                let mut it = TwoValuedInterpretationsIterator::new(&v);
+                for _ in 0..num {
+                    if it.next().is_none() {
+                        break;
+                    }
+                }
+                (it.size_hint(), it.count())
+            };
+            let hint_ok = hint.0 <= count && hint.1.map(|h| count <= h).unwrap_or(true);
+            format!("remaining={count} hint-consistent={}", hint_ok as u8)
+        }
+    }));
+    match res {
+        Ok(s) => out.line(&format!("~ {s}")),
+        Err(_) => out.line("~ panic"),
+    }
+    let k = v.iter().filter(|t| !t.is_truth_value()).count();
+    out.line(&format!("# case iter kind={} len={} undecided={} yielded={}", ws[0], v.len(), k, num));
+    true
+}
+
 pub fn exec(ws: &[&str], l: &str, out: &mut Out) -> bool {
+    if matches!(ws[0], "itp2" | "itp3" | "itc2" | "itc3") {
+        return exec_proto(ws, l, out);
+    }
     let three = match ws[0] {
         "it2" => false,
         "it3" => true,
